@@ -105,6 +105,10 @@ def lean_check(prop, thorough=False):
                  stdout=subprocess.PIPE, stderr=subprocess.STDOUT, text=True)
         if gen.returncode != 0:
             return dict(ok=False, msg="constant extraction from /repo failed:\n" + gen.stdout[-3000:], theorems=[])
+        try:
+            fallbacks = json.loads(gen.stdout.strip().splitlines()[-1]).get("fallbacks", [])
+        except Exception:
+            fallbacks = []
         r = sh(["lake", "build", "RedoModel.Props." + prop, "RedoModel.AuditCmd", "redomodel"], cwd=LEAN,
                stdout=subprocess.PIPE, stderr=subprocess.STDOUT, text=True)
         if r.returncode != 0:
@@ -146,7 +150,7 @@ def lean_check(prop, thorough=False):
         return dict(ok=False, msg="axioms outside the allowed set: %r" % [(t["theorem"], t["axioms"]) for t in badax], theorems=thms)
     if not thms:
         return dict(ok=False, msg="no theorems found in namespace " + prop, theorems=[])
-    return dict(ok=True, msg="", theorems=thms)
+    return dict(ok=True, msg="", theorems=thms, extraction_fallbacks=fallbacks)
 
 
 def hx(s):
@@ -221,6 +225,8 @@ def write_evidence(prop, tier, lean, cov, assumptions, wall, violations):
         theorems=[dict(name=t["theorem"], axioms=t["axioms"], statement_sha1=hashlib.sha1(t["statement"].encode()).hexdigest()[:12]) for t in thms],
     )
     coverage.update(cov)
+    if lean.get("extraction_fallbacks"):
+        coverage["generated_constants_kept_from_last_run"] = lean["extraction_fallbacks"]
     ev = dict(property_id=prop, tier=tier, seed=seed(), level="proof", coverage=coverage,
               assumptions=assumptions, wall_s=round(wall, 2), violations=violations)
     # evidence under /verif/evidence only describes /repo itself; runs against a scratch copy keep theirs with the build
